@@ -85,10 +85,17 @@ pub struct GateTracker {
     /// gates of the siblings of a panicking branch in the panicking step: the panic must reach the caller
     /// without any of them being released (async kinds)
     pub optional: HashSet<u16>,
+    /// gate id -> branch, for initial values that are awaited in the caller's block (`srca(ID).await`)
+    pub heads: Vec<(u16, usize)>,
+    tasks: bool,
 }
 impl GateTracker {
     pub fn new(prog: &Prog, exp: &Exp, plan: &Plan) -> Self {
+        Self::new_for(prog, exp, plan, false)
+    }
+    pub fn new_for(prog: &Prog, exp: &Exp, plan: &Plan, tasks: bool) -> Self {
         let gated = |id: u16| flags_of(plan, id) & GATE != 0;
+        let heads: Vec<(u16, usize)> = prog.branches.iter().enumerate().filter(|(_, b)| b.steps[0][0].op == Op::SrcAwait && gated(b.steps[0][0].id)).map(|(i, b)| (b.steps[0][0].id, i)).collect();
         let mut seqs = Vec::new();
         for (k, st) in exp.steps.iter().enumerate() {
             for b in &st.brs {
@@ -124,15 +131,36 @@ impl GateTracker {
                 }
             }
         }
-        GateTracker { seqs, handler, optional }
+        GateTracker { seqs, handler, optional, heads, tasks }
     }
     pub fn all(&self) -> Vec<u16> {
         let mut v: Vec<u16> = self.seqs.iter().flat_map(|s| s.2.iter().copied()).collect();
         v.extend(self.handler);
         v
     }
+    /// The awaited head (lowest branch) that is still unreleased, if any: while it is pending the caller's own
+    /// block is suspended in the middle of building the step-0 arguments.
+    pub fn pending_head(&self, released: &HashSet<u16>) -> Option<(u16, usize)> {
+        self.heads.iter().filter(|(g, _)| !released.contains(g)).min_by_key(|(_, b)| *b).copied()
+    }
     /// (gates that must have arrived by now, gates that must not have arrived yet, current step)
     pub fn expect(&self, released: &HashSet<u16>) -> (Vec<u16>, Vec<u16>, usize) {
+        if let Some((hg, hb)) = self.pending_head(released) {
+            // branches after the awaited head do not exist yet; branches before it are running tasks in the
+            // task-spawning kinds and not yet polled futures in the others
+            let mut must = vec![hg];
+            if self.tasks {
+                for (sk, b, gs) in &self.seqs {
+                    if *sk == 0 && *b < hb {
+                        if let Some(g) = gs.iter().find(|g| !released.contains(g)) {
+                            must.push(*g);
+                        }
+                    }
+                }
+            }
+            let mustnot: Vec<u16> = self.seqs.iter().filter(|s| s.0 > 0).flat_map(|s| s.2.iter().copied()).filter(|g| !released.contains(g)).collect();
+            return (must, mustnot, 0);
+        }
         let cur = self.seqs.iter().filter(|s| s.2.iter().any(|g| !released.contains(g))).map(|s| s.0).min();
         let mut must = Vec::new();
         let mut mustnot = Vec::new();
@@ -157,6 +185,52 @@ impl GateTracker {
                 (must, mustnot, usize::MAX)
             }
         }
+    }
+    /// Callbacks the model says must already have run at a quiescent point: every branch of the current step has
+    /// progressed up to its own next unreleased gate (or to its step end). Returns (branch, missing callback id).
+    pub fn missing_progress(&self, exp: &Exp, released: &HashSet<u16>, logged: &[u16]) -> Vec<(usize, u16)> {
+        let (_, _, k) = self.expect(released);
+        if k == usize::MAX || k >= exp.steps.len() || exp.panics {
+            return vec![];
+        }
+        let head = self.pending_head(released);
+        let mut count: std::collections::HashMap<u16, usize> = std::collections::HashMap::new();
+        for id in logged {
+            *count.entry(*id).or_insert(0) += 1;
+        }
+        let mut missing = Vec::new();
+        for br in &exp.steps[k].brs {
+            if let Some((_, hb)) = head {
+                if !(self.tasks && br.branch < hb) {
+                    continue;
+                }
+            }
+            let gates: Vec<u16> = self.seqs.iter().filter(|s| s.0 == k && s.1 == br.branch).flat_map(|s| s.2.iter().copied()).collect();
+            let stop = gates.iter().find(|g| !released.contains(g)).copied();
+            let mut need: std::collections::HashMap<u16, usize> = std::collections::HashMap::new();
+            let mut blocked_at_src = false;
+            if let Some(g) = stop {
+                // a gated initial value blocks everything of its branch
+                if !br.calls.iter().any(|c| c.0 == g) {
+                    blocked_at_src = true;
+                }
+            }
+            if blocked_at_src {
+                continue;
+            }
+            for (id, _) in &br.calls {
+                *need.entry(*id).or_insert(0) += 1;
+                if Some(*id) == stop {
+                    break;
+                }
+            }
+            for (id, n) in need {
+                if count.get(&id).copied().unwrap_or(0) < n {
+                    missing.push((br.branch, id));
+                }
+            }
+        }
+        missing
     }
 }
 
@@ -374,6 +448,7 @@ impl Wake for CountWaker {
 
 /// The decision procedure shared by both async drivers, taken at a quiescent point with the root Pending.
 struct Decider<'a> {
+    exp: &'a Exp,
     tracker: GateTracker,
     released: HashSet<u16>,
     sched: &'a Sched,
@@ -403,6 +478,14 @@ impl<'a> Decider<'a> {
         }
         if let Some(g) = mustnot.iter().find(|g| arr.contains(g)) {
             self.notes.push(Note { prop: "C03", msg: format!("gate {} (later step) reached while gate(s) {:?} of step {} are pending", g, pending, k) });
+        }
+        // independent progress: every branch has run up to its own next pending point
+        let logged: Vec<u16> = log::snapshot().iter().filter(|e| e.k == K::Call && !e.stale).map(|e| e.id).collect();
+        for (b, id) in self.tracker.missing_progress(self.exp, &self.released, &logged) {
+            self.notes.push(Note {
+                prop: "C09",
+                msg: format!("at a quiescent point branch {} has not invoked callback {} of step {} although nothing it depends on is pending (held gates of siblings: {:?}) — a pending sibling blocks it", b, id, k, pending),
+            });
         }
         if pending.is_empty() {
             return Next::Deadlock(format!("future pending, not notified, no gate left to release (released={:?}, expected next={:?})", self.released, must));
@@ -436,7 +519,7 @@ pub fn run_async_plain(case: &Case, exp: &Exp, plan: &Plan, sched: &Sched) -> Ru
         _ => unreachable!(),
     };
     let caller_thr = log::thr();
-    let mut d = Decider { tracker: GateTracker::new(case.prog, exp, plan), released: HashSet::new(), sched, notes: vec![], decisions: 0, max_held: 0, is_try: case.kind.is_try() };
+    let mut d = Decider { exp, tracker: GateTracker::new_for(case.prog, exp, plan, case.kind.is_tasks()), released: HashSet::new(), sched, notes: vec![], decisions: 0, max_held: 0, is_try: case.kind.is_try() };
     let mut polls = 0usize;
     let r = catch_unwind(AssertUnwindSafe(|| -> Outcome {
         let fut = mk();
@@ -601,7 +684,7 @@ pub fn run_async_tasks(case: &Case, exp: &Exp, plan: &Plan, sched: &Sched) -> Ru
         _ => unreachable!(),
     };
     let caller_thr = log::thr();
-    let mut d = Decider { tracker: GateTracker::new(case.prog, exp, plan), released: HashSet::new(), sched, notes: vec![], decisions: 0, max_held: 0, is_try: case.kind.is_try() };
+    let mut d = Decider { exp, tracker: GateTracker::new_for(case.prog, exp, plan, case.kind.is_tasks()), released: HashSet::new(), sched, notes: vec![], decisions: 0, max_held: 0, is_try: case.kind.is_try() };
     let mut polls = 0usize;
     let rt = tokio::runtime::Builder::new_current_thread().enable_time().build().expect("tokio rt");
     let r = catch_unwind(AssertUnwindSafe(|| {
